@@ -133,3 +133,11 @@ reg("C13", "^TestC13$", q=(150, 4, 1500), t=(600, 16, 5400), batch=40, level="fa
          "each statement of SaveLastSentCertificate's transaction is failed in turn and must leave the table unchanged.",
     note="Trusted: model Agglayer's notion of latest settled / latest pending header; a death is a panic recovered at the step boundary (no DB transaction open there); SQLite crash atomicity.",
     design="§3 C13")
+
+reg("C15", "^TestC15$", q=(200, 4, 900), t=(3000, 16, 3600), batch=300,
+    technique="property-based testing, stateful: rapid-generated L1 histories and schedules (finality, syncer progress, ticks, transient faults, external injections) over the real AggOracle tick body and real L1 info store; oracle = safety of each injection + bounded progress",
+    text="Exploration: the body of the oracle's loop iteration (processLatestGER + error handling, sticky target held by the harness) "
+         "runs against the real L1 info store fed block by block ('syncer behind' = blocks not fed yet), a scripted L1 client and a "
+         "recording model of the L2 GER contract.",
+    note="Trusted: fakechain finality pointer, the recording chain sender. Liveness only as bounded progress at fault-free ticks.",
+    design="§3 C15")
